@@ -21,9 +21,14 @@ from ..common import AnalysisError, SRC
 from .. import pyfront
 
 CONVERTERS = {"PyLong_AsLong": "long", "PyLong_AsLongLongAndOverflow": "long long",
+              "PyLong_AsLongAndOverflow": "long",
               "PyLong_AsUnsignedLongLong": "unsigned long long", "PyFloat_AsDouble": "double",
               "PyLong_AsDouble": "double"}
-WRAPPING = ("PyLong_AsUnsignedLongLongMask", "PyLong_AsUnsignedLongMask", "PyLong_AsLongAndOverflow",
+# *AndOverflow converters report out-of-range through an int out-parameter
+# (+1 / -1) and return -1: the result is usable only where both signs of the
+# indicator have been excluded (a `result < 0` rejection also covers -1)
+OVERFLOW_OUT = ("PyLong_AsLongAndOverflow",)
+WRAPPING = ("PyLong_AsUnsignedLongLongMask", "PyLong_AsUnsignedLongMask",
             "PyLong_AsSize_t", "PyLong_AsSsize_t", "PyNumber_AsSsize_t", "PyLong_AsUnsignedLong",
             "PyNumber_Long", "PyNumber_Float", "_PyLong_AsInt", "PyLong_AsInt")
 WIDTH = {"int": (32, True, False), "unsigned int": (32, False, False), "long": (64, True, False),
@@ -100,6 +105,7 @@ class NarrowAnalysis(Analysis):
                     "being rejected" % (nar[0][0].strip(), api, nar[0][1].strip()))
             if l0.k == "DeclRefExpr" and l0.rk in ("VarDecl", "ParmVarDecl"):
                 # v = CONVERTER(arg): v becomes a tracked conversion result
+                st = self._link_overflow(st, l0.n, api, call)
                 return sset(st, "c:" + l0.n, (api, bool(safe), bool(nar), bool(nar)))
             self._count(node)
             if not safe:
@@ -140,6 +146,26 @@ class NarrowAnalysis(Analysis):
     def _is_slot(self, l0):
         return False
 
+    def _link_overflow(self, st, var, api, call):
+        if api in OVERFLOW_OUT and call is not None and len(call.kids) > 2:
+            a = strip(call.kids[2])
+            if a is not None and a.k == "UnaryOperator" and a.v == "&":
+                ov = path(a.kids[0])
+                if ov:
+                    st = sset(st, "ov:" + ov, var)
+                    st = sset(st, "oh:" + var, None)
+                    st = sset(st, "ol:" + var, None)
+        return st
+
+    def _overflow_excluded(self, st, var, high=False, low=False):
+        if high:
+            st = sset(st, "oh:" + var, True)
+        if low:
+            st = sset(st, "ol:" + var, True)
+        if sget(st, "oh:" + var) and sget(st, "ol:" + var):
+            st = self._upd(st, var, errchk=True)
+        return st
+
     def _count(self, node):
         if node.id not in self._store_ids:
             self._store_ids.add(node.id)
@@ -153,6 +179,7 @@ class NarrowAnalysis(Analysis):
                     if init:
                         api, call = self._conv_call(init[-1])
                         if api:
+                            st = self._link_overflow(st, v.n, api, call)
                             st = sset(st, "c:" + v.n, (api, False, False, False))
             return st
         for n in e.walk():
@@ -184,6 +211,29 @@ class NarrowAnalysis(Analysis):
         e0 = strip(e)
         if e0 is None:
             return st
+        # the overflow indicator of an *AndOverflow converter
+        ovn = None
+        if e0.k == "DeclRefExpr" and sget(st, "ov:" + e0.n) is not None:
+            # `if (overflow)`: the false side excludes both signs
+            if not want:
+                st = self._overflow_excluded(st, sget(st, "ov:" + e0.n), high=True, low=True)
+            return st
+        if e0.k == "BinaryOperator" and e0.v in ("==", "!=", "<", ">", "<=", ">="):
+            a0x = strip(e0.kids[0])
+            if a0x is not None and a0x.k == "DeclRefExpr" and sget(st, "ov:" + a0x.n) is not None \
+                    and const_int(e0.kids[1]) == 0:
+                var = sget(st, "ov:" + a0x.n)
+                op = e0.v
+                if not want:
+                    op = {"==": "!=", "!=": "==", "<": ">=", ">": "<=", "<=": ">", ">=": "<"}[op]
+                # op holds between overflow and 0 on this edge
+                if op == "==":
+                    st = self._overflow_excluded(st, var, high=True, low=True)
+                elif op == "<=":
+                    st = self._overflow_excluded(st, var, high=True)
+                elif op == ">=":
+                    st = self._overflow_excluded(st, var, low=True)
+                return st
         if "PyFloat_Type" in text(e0) and e0.k == "CallExpr":
             st = sset(st, "isfloat", True if want else None)
             return st
@@ -219,6 +269,10 @@ class NarrowAnalysis(Analysis):
                 cb = const_int(b)
                 if e0.v == "<" and cb == 0 and not want:
                     st = self._upd(st, a0.n, nonneg=True)
+                    f0 = sget(st, "c:" + a0.n)
+                    if f0 is not None and f0[0] in OVERFLOW_OUT:
+                        # negative overflow returns -1, which is < 0
+                        st = self._overflow_excluded(st, a0.n, low=True)
                 minus1 = cb in (-1, 2 ** 64 - 1, 2 ** 32 - 1)
                 if e0.v == "==" and minus1 and not want:
                     st = self._upd(st, a0.n, errchk=True)
